@@ -16,7 +16,12 @@ Three ties between the Coq models (Model/Pool.v, Model/RunEffects.v) and the rea
     (fail = Assign) and Pool.run_stage_desc; the property's own predicate evaluated by the
     extracted RunEffects.check_trace_sx on the OBSERVED effects.
  P  other fail points of run_mapping (marker cache, CSV, summary) validate the
-    try/except/finally model beyond the assignment step."""
+    try/except/finally model beyond the assignment step.
+ X  exit codes: real forked workers that return / raise / os._exit(k) / are killed by a signal;
+    multiprocessing.Process.exitcode compared with Pool.exit_code_of (os._exit(256) -> 0).
+ In V, for the selection scheduler, the locals started_parents / completed_parents / process_dict of the
+ real select_all_markers are read off its frame when it is left (sys.setprofile) and compared with the
+ model's final state: the final drain does not add to completed_parents."""
 import contextlib
 import io
 import json
@@ -303,6 +308,78 @@ def compare_virtual(ctx, pending):
             ctx.traces_validated += 1
 
 
+@contextlib.contextmanager
+def completed_parents_observer(box):
+    """select_all_markers keeps started_parents / completed_parents / process_dict in locals.  They are read off
+    the frame at the moment the function is left -- by `return` or by an exception -- with sys.setprofile
+    (harness side, no source hook).  box gets 'completed', 'started' (sets of parents) and 'in_dict' (keys)."""
+    import sys
+
+    def prof(frame, event, arg):
+        if event == 'return' and frame.f_code.co_name == 'select_all_markers' \
+                and frame.f_code.co_filename.endswith('selection_pipeline.py'):
+            loc = frame.f_locals
+            if 'completed_parents' in loc and 'started_parents' in loc:
+                box['completed'] = set(loc['completed_parents'])
+                box['started'] = set(loc['started_parents'])
+                box['in_dict'] = list(loc.get('process_dict', {}).keys())
+    old = sys.getprofile()
+    sys.setprofile(prof)
+    try:
+        yield
+    finally:
+        sys.setprofile(old)
+
+
+def _exit_worker(mode, arg):
+    import signal as _signal
+    if mode == 1:
+        raise RuntimeError('worker raises (exit-code tie)')
+    if mode == 2:
+        os._exit(arg)
+    if mode == 3:
+        os.kill(os.getpid(), arg)
+        time.sleep(5)
+
+
+def exit_code_tie(ctx):
+    """Model/Pool.v exit_code_of against multiprocessing.Process.exitcode of real forked workers: return, raise,
+    os._exit(k) for k inside and outside 0..255 (the status is cut to its low 8 bits: os._exit(256) is seen as 0),
+    killed by a signal."""
+    import multiprocessing
+    import signal as _signal
+    plan = [(0, 0), (1, 0)] + [(2, k) for k in (0, 1, 3, 255, 256, 257, 519, -1, -256)] \
+        + [(3, int(sg)) for sg in (_signal.SIGKILL, _signal.SIGTERM, _signal.SIGUSR1)]
+    observed = []
+    with quiet():
+        for mode, arg in plan:
+            p = multiprocessing.Process(target=_exit_worker, args=(mode, arg))
+            p.start()
+            p.join(30)
+            if p.exitcode is None:
+                p.kill()
+                p.join(5)
+            observed.append(p.exitcode)
+    outs = ctx.model([(1406, [mode, arg]) for mode, arg in plan])
+    names = {0: 'returns', 1: 'raises', 2: 'os._exit', 3: 'killed by signal'}
+    for (mode, arg), obs, out in zip(plan, observed, outs):
+        ctx.count(('X', mode, arg), nontrivial=mode != 0)
+        ctx.dist('exit_code', f'{names[mode]} {arg if mode >= 2 else ""} -> {obs}')
+        rep = {'kind': 'exit-code', 'mode': names[mode], 'arg': arg, 'observed': obs, 'model': out}
+        if out[0] != 0 or out[1] != obs:
+            ctx.disagreements_checked += 1
+            ctx.violation(f'a worker that {names[mode]}({arg}) has exitcode {obs}; Pool.exit_code_of says {out}',
+                          dict(rep, **{'class': 'corr:Pool.exit_code_of'}), no_input=True)
+            continue
+        # (b) the property's premise on the observation: the parent can tell the worker failed iff the code is non-zero
+        abnormal = mode in (1, 3) or (mode == 2 and arg % 256 != 0)
+        if abnormal != (obs != 0):
+            ctx.violation(f'a worker that {names[mode]}({arg}) is reported with exit code {obs}',
+                          dict(rep, **{'class': 'c14-exit-code-hides-failure'}))
+        else:
+            ctx.traces_validated += 1
+
+
 def selection_virtual(ctx, rng, refm_path, genes, base, n_worlds):
     """The behemoth scheduler of select_all_markers (real loop, real inspector, stand-in
     processes indexed by parent) against Pool.run_selection_pool."""
@@ -328,13 +405,19 @@ def selection_virtual(ctx, rng, refm_path, genes, base, n_worlds):
         w = gen_world(rng, len(parents), p_fail=0.2)
         w['index_of'] = lambda kw: pid[repr(kw['parent_node'])]
         d = base / f'selv{i}'
-        res = call_stage(selection_call(refm_path, genes, d, n, cutoff_cfg) if d.mkdir() is None else None,
-                         ['selection'], world=w)
+        box = {}
+        with completed_parents_observer(box):
+            res = call_stage(selection_call(refm_path, genes, d, n, cutoff_cfg) if d.mkdir() is None else None,
+                             ['selection'], world=w)
         shutil.rmtree(d, ignore_errors=True)
         w = {'code': w['code'], 'dur': w['dur']}
         started = [x for ev, x in res['logs']['selection'] if ev == 'start']
         popped = [x for ev, x in res['logs']['selection'] if ev == 'pop']
-        obs = {'ok': res['ok'], 'code': res['msg_code'], 'started': started, 'popped': popped, 'etype': res['etype']}
+        obs = {'ok': res['ok'], 'code': res['msg_code'], 'started': started, 'popped': popped, 'etype': res['etype'],
+               # the locals of select_all_markers when it was left (None: not observed)
+               'completed_parents': sorted(pid[repr(q)] for q in box['completed']) if 'completed' in box else None,
+               'started_parents': sorted(pid[repr(q)] for q in box['started']) if 'started' in box else None,
+               'process_dict': [pid[repr(q)] for q in box['in_dict']] if 'in_dict' in box else None}
         cases.append((1403, [n, beh, sml, leafless, w['code'], w['dur']]))
         meta.append((n, cutoff_cfg, beh, sml, leafless, w, obs, res['error']))
     for (n, cutoff_cfg, beh, sml, leafless, w, obs, err), out in zip(meta, ctx.model(cases)):
@@ -355,6 +438,19 @@ def selection_virtual(ctx, rng, refm_path, genes, base, n_worlds):
         verdict, m_started, m_completed = out[1]
         m_procs = [x for x in m_started if x not in leafless]
         good = (verdict[0] == 0) == obs['ok'] and m_procs == obs['started'] and verdict[0] != 2
+        # completed_parents / started_parents as the real function left them.  On a clean return the model's final
+        # state is the state at the return; on a raise the model hands back the state before the inner poll loop
+        # that raised, so its completed set is a lower bound of the real one
+        if obs['completed_parents'] is None:
+            ctx.extra['completed_parents_unobserved'] = ctx.extra.get('completed_parents_unobserved', 0) + 1
+        else:
+            ctx.dist('completed_parents', 'all parents' if len(obs['completed_parents']) == len(beh + sml)
+                     else 'fewer than all parents' + (' on a clean return' if obs['ok'] else ' on a raise'))
+            good = good and obs['started_parents'] == sorted(m_started)
+            if obs['ok']:
+                good = good and obs['completed_parents'] == sorted(m_completed) and obs['process_dict'] == []
+            else:
+                good = good and set(m_completed) <= set(obs['completed_parents'])
         if verdict[0] == 1:
             good = good and obs['code'] == verdict[2] and obs['etype'] == 'RuntimeError'
         if not good:
@@ -790,6 +886,8 @@ def run(ctx):
                 'F: one real forked worker made to fail; non-trivial = every faulted run of a stage with >= 2 workers.  '
                 'P: run_mapping made to fail at the marker cache / CSV / summary step.')
     ctx.assumptions += [
+        'os._exit(k) with k a multiple of 256 is reported by the operating system as exit code 0: no parent can see it '
+        '(Pool.exit_code_of models the mod 256; c14_abnormal_codes excludes it; the tie X checks it on real workers)',
         'every started worker terminates (a hanging worker, a dying Manager process and a crash of the parent are not modelled)',
         'fork start method; faults are injected by harness-side wrappers of module-level names (harness/faults.py), '
         'active only under CELL_TYPE_MAPPER_VERIF=1; no source hook',
@@ -848,6 +946,8 @@ def run(ctx):
             virtual_case(ctx, st, mk, n, k, world, {'dir': vb / f'{st}{i}', 'what': f'stats of {n_rows} rows'}, pending)
     compare_virtual(ctx, pending)
     shutil.rmtree(vb, ignore_errors=True)
+    # ---- X: the exit codes multiprocessing reports against Pool.exit_code_of
+    exit_code_tie(ctx)
 
     # ---- F: real faults
     if ctx.quick():
